@@ -20,7 +20,7 @@ Matches ==
     /\ last'.e = E.e /\ last'.sent = E.sent /\ last'.exc = E.exc
     /\ CASE E.e = "write" -> last'.s = E.s /\ last'.n = E.n
          [] E.e = "close" -> TRUE
-         [] E.e = "sdeliver" -> last'.m = E.m
+         [] E.e = "sdeliver" -> last'.m = E.m /\ last'.hook = E.hook /\ last'.sw = E.sw
          [] E.e = "rdeliver" -> last'.m = E.m /\ last'.got = E.got
          [] E.e = "radjust" -> last'.n = E.n
          [] OTHER -> FALSE
@@ -29,7 +29,7 @@ Step(A) == /\ l <= Len(T.ev) /\ A /\ Matches /\ Inv' /\ l' = l + 1 /\ UNCHANGED 
 
 TNext == \/ (E.e = "write" /\ Step(AppWrite(E.s, E.n)))
          \/ (E.e = "close" /\ Step(AppClose))
-         \/ (E.e = "sdeliver" /\ Step(SDeliver))
+         \/ (E.e = "sdeliver" /\ Step(SDeliver(E.hook)))
          \/ (E.e = "rdeliver" /\ Step(RDeliver))
          \/ (E.e = "radjust" /\ Step(RAdjust(E.n)))
 
